@@ -269,6 +269,9 @@ func c16MakeOp(c *core.Case) *c16Op {
 		return h, v
 	}
 	listCall := func(name string, base []string, f func([]string) ([]string, error)) func(idx [][]int) (c16Res, string) {
+		if c16ArgDesc == "" {
+			note("%s=%q (zoom arguments are part of the case key)", name, trunc(base, 24))
+		}
 		return func(idx [][]int) (c16Res, string) {
 			in := pick(base, idx[0])
 			cp := copyStrings(in)
@@ -382,6 +385,7 @@ func c16MakeOp(c *core.Case) *c16Op {
 	case 9: // 6/8/26 neighbourhoods (single ID: repeated calls only)
 		id := genID(r, 0, 35, 0, 35).Ext()
 		c.KS(id)
+		note("id=%s", id)
 		which := r.Intn(3)
 		name := []string{"Get6spatialIdsAdjacentToFaces", "Get8spatialIdsAroundHorizontal", "Get26spatialIdsAroundVoxel"}[which]
 		return &c16Op{name: name, sizes: nil, dedup: false, call: func([][]int) (c16Res, string) {
@@ -460,6 +464,7 @@ func c16MakeOp(c *core.Case) *c16Op {
 		b, _ := c05Related(r, a, false)
 		sa, sb := a.Ext(), b.Ext()
 		c.KS(sa, sb)
+		note("id1=%s id2=%s", sa, sb)
 		return &c16Op{name: "CheckExtendedSpatialIdsOverlap", sizes: nil, dedup: false, call: func([][]int) (c16Res, string) {
 			g, err := detector.CheckExtendedSpatialIdsOverlap(sa, sb)
 			return c16Res{canon: fmt.Sprint(g), n: -1, dist: 1, err: err}, ""
@@ -474,6 +479,7 @@ func c16MakeOp(c *core.Case) *c16Op {
 		}
 		mh, mv := minZ(ids)
 		H, V := clampI(mh+r.Range(-3, 2), 1, 31), clampI(mv+r.Range(-3, 2), 0, 35)
+		note("ids=%q outputHZoom=%d outputVZoom=%d", ref.Exts(ids), H, V)
 		pairsOf := func(groups [][][2]int64) c16Res {
 			var l []string
 			for _, g := range groups {
